@@ -42,6 +42,9 @@ def prepared : String → Option FS
       dir (L ["x", "bin"]), file (L ["x", "bin", "tool"]) "t",
       dir (L ["x", "data"]), dir (L ["x", "data", "inner"]), file (L ["x", "data", "inner", "file"]) "f",
       file (L ["x.sbom.cdx.json"]) "{\"old\":1}", file (L ["x.sbom.syft.json"]) "{\"old\":3}"]
+  -- restored by an older buildpack version: decodes as `M`, but with a value the data-dependent callbacks reject
+  | "stale" => some [dir (L []), dir (L ["x"]), (L ["x.toml"], .file (.ltoml (.doc none (some (mv 7))))),
+      dir (L ["x", "env"]), file (L ["x", "env", "FOO.append"]) "a", dir (L ["x", "bin"]), file (L ["x", "bin", "tool"]) "t"]
   -- phases
   | "clean" => some [dir (L [])]
   | "existing" => some [dir (L []), file ["plan.toml"] oldContent, file (L ["launch.toml"]) oldContent,
@@ -63,11 +66,47 @@ def updated : LayerResultSpec := ⟨mv 4, env1, [sbomNew1], [progSrc]⟩
 /-- `cached(…, restored = keep, invalid = delete)`: also the prelude that obtains the `LayerRef` of the `w*` operations -/
 def cachedKeep : Prog := handleLayer lx typesAll .versioned (.delete 2) (.keep 3) 3
 
+/-! ### callbacks that depend on what was read from disk (mirrored by `cached_migrate` / `TraitLayer { datadep }` in c12op.rs)
+
+With a constant callback a read whose failure is swallowed ("no metadata") leaves no trace: the call returns `Ok` with
+the directory of a successful call. These callbacks make every read that feeds a decision change the outcome. -/
+
+/-- `invalid_metadata_action` as a real migration: the old format `{ w = <int> }` becomes `V { v: w + 10 }`; when there is
+nothing to migrate from (no metadata, no `w`) the layer is deleted -/
+def migrateInv : Option MetaTbl → CbInv
+  | some ⟨_, some w⟩ => .replace (mv (w + 10)) 1
+  | _ => .delete 2
+
+/-- `restored_layer_action` looking at the metadata: the current value (1) and a migrated one (11 …) are kept, others deleted -/
+def restoredByMeta : Option MetaTbl → CbRes
+  | some ⟨some v, _⟩ => if v = 1 ∨ v > 10 then .keep 3 else .delete 4
+  | _ => .delete 4
+
+/-- `migrate_incompatible_metadata` (trait API) as the same migration; nothing to migrate from → `RecreateLayer` -/
+def migrateT : Option MetaTbl → Migration
+  | some ⟨_, some w⟩ => .replace (mv (w + 10))
+  | _ => .recreate
+
+/-- does the env read back from the layer directory set `FOO` (an `env/FOO.append` file)? -/
+def envHasFoo (e : EnvSpec) : Bool := e.all.any (fun f => f.1 == "FOO.append")
+
+/-- `existing_layer_strategy` looking at the `LayerData`: a migrated layer is kept; a current one (v = 1) is updated when
+its env sets `FOO` and kept otherwise; any other value is recreated -/
+def strategyByData : Option MetaTbl → EnvSpec → Strategy
+  | some ⟨some v, _⟩, e => if v > 10 then .keep else if v = 1 then (if envHasFoo e then .update else .keep) else .recreate
+  | _, _ => .recreate
+
+/-- `update` deriving its metadata from the old one (`v + 3`); env, SBOM and exec.d as `updated` -/
+def updatedByData : Option MetaTbl → EnvSpec → LayerResultSpec
+  | some ⟨some v, _⟩, _ => ⟨mv (v + 3), env1, [sbomNew1], [progSrc]⟩
+  | _, _ => ⟨mv 0, env1, [sbomNew1], [progSrc]⟩
+
 /-- the operation performed for an op id -/
 def opProg : String → Option Prog
   | "cached-keep" => some cachedKeep
   | "cached-del" => some (handleLayer lx typesAll .versioned (.delete 2) (.delete 4) 3)
   | "cached-repl" => some (handleLayer lx typesAll .versioned (.replace (mv 5) 1) (.keep 3) 3)
+  | "cached-migrate" => some (handleLayerD lx typesAll .versioned migrateInv restoredByMeta 3)
   | "uncached" => some (handleLayer lx typesUncached .generic (.delete 0) (.delete 0) 3)
   | "wmeta" => some (replaceMeta lx (mv 9) unit)
   | "wenv" => some (writeToLayerDir (layerDir lx) env1 unit)
@@ -82,6 +121,7 @@ def opProg : String → Option Prog
   | "t-keep" => some (tHandle lx typesAll .keep .recreate created updated 3)
   | "t-mig-replace" => some (tHandle lx typesAll .keep (.replace (mv 6)) created updated 3)
   | "t-mig-recreate" => some (tHandle lx typesAll .keep .recreate created updated 3)
+  | "t-migrate" => some (tHandleD lx typesAll strategyByData migrateT created updatedByData 3)
   | "envwrite" => some (writeToLayerDir (layerDir lx) env1 unit)
   | "envwrite-empty" => some (writeToLayerDir (layerDir lx) {} unit)
   | "detect-plan" => some detectWritesPlan
@@ -90,7 +130,7 @@ def opProg : String → Option Prog
   | _ => none
 
 def opIds : List String :=
-  ["cached-keep", "cached-del", "cached-repl", "uncached", "wmeta", "wenv", "wenv-empty", "wenv-proc", "wsbom", "wsbom-none",
+  ["cached-keep", "cached-del", "cached-repl", "cached-migrate", "t-migrate", "uncached", "wmeta", "wenv", "wenv-empty", "wenv-proc", "wsbom", "wsbom-none",
    "wexecd", "wexecd-none", "t-recreate", "t-update", "t-keep", "t-mig-replace", "t-mig-recreate", "envwrite", "envwrite-empty",
    "detect-plan", "build-all", "build-none"]
 
